@@ -32,7 +32,7 @@ CHECKS = {
             "Encoder output equals the reference encoding byte for byte on generated payloads/feeding plans; the decoder's verdict and output equal the reference decoder's on valid encodings, header mutations (253..255, near-limit sizes), set/insert/delete/truncate/append mutations and short arbitrary strings, under generated call segmentations; all strings over a header alphabet up to length 6 (7) with limits 3/5 and 2/3, and every truncation of boundary-length encodings, are enumerated.",
             "Trusts refimpl/hcobs_ref.rs (validated against the expected pairs of the crate's own unit tests).", "DESIGN.md §5 C07"),
     "C08": ("property-based testing with a tiling invariant checked chunk by chunk against the input stream (running position, content equality, no FE FD inside or across Data chunks, sticky Eof)",
-            "Every chunk returned by pump is checked against the generated stream at the running position; the same streams, scripted readers (short reads, EINTR), block sizes {0,1,2,...,default} and arena preparations as C06, plus arenas whose current chunk is a maximum-size (1 MiB) one with 0..37 bytes left.",
+            "Every chunk returned by pump is checked against the generated stream at the running position (the block size may change from call to call); the same streams, scripted readers (short reads, EINTR), block sizes {0,1,2,...,default} and arena preparations as C06, plus arenas whose current chunk is a maximum-size (1 MiB) one with 0..37 bytes left.",
             "Readers never fail hard or end early.", "DESIGN.md §5 C08"),
     "C09": ("property-based testing with an online invariant over the call history (observed bytes never change, drained = observable prefix, observable prefix of final output, lag bound) on generated drain schedules and on multi-MiB generated streams",
             "After every encoder/decoder call the consumable bytes are compared with everything seen before and with the final output; lag is checked against the constant bound after every call, on short messages with dense drain schedules and on streams of 2..24 MiB (16..320 MiB thorough) through Encoder, Decoder and Encoder->Decoder pipelines.",
@@ -50,10 +50,10 @@ CHECKS = {
             "Tens of thousands (millions in thorough) of generated (thread programs, schedule, reads-from choices) executions of the real AtomicBaseTime code against a harness-owned memory model that produces the stale reads release/acquire permits; snapshots must be whole pairs, never go backwards per thread, be at least as recent as everything that happens-before them, and the writers' effects must equal a sequential replay in lock order, including updates the crate rejects (mismatched voucher: panic inside the critical section, poisoned lock, recovery by the next writer), which must leave no trace; every schedule with <= 2 (3) preemptions for four fixed programs is enumerated.",
             "Promise-free RA fragment (sound: no false alarms; load-buffering not generated); <= 3 (4) threads x <= 3 (4) operations; hook: vouched_time/verif-hooks.", "DESIGN.md §5 C13"),
     "C14": ("differential property-based testing against i128 reference arithmetic, with a boundary-biased generator and a complete grid of window edges x anchor times",
-            "Hundreds of thousands (tens of millions in thorough) of generated (local time, base time, voucher) triples around both window edges, the epoch (including negative sub-millisecond times), the calendar limits, base times near 0 / 2^63 / 2^64 and discrepancies of k*2^p plus an in-window offset (p = 8..62), with correct, off-by-one, foreign-parameter and random vouchers; accept/reject compared with the rule evaluated in i128; plus a complete edge grid and now() with a provider answering clock - diff.",
+            "Hundreds of thousands (tens of millions in thorough) of generated (local time, base time, voucher) triples around both window edges, the epoch (including negative sub-millisecond times), the calendar limits, base times near 0 / 2^63 / 2^64 and discrepancies of k*2^p plus an in-window offset (p = 8..62), with correct, off-by-one, foreign-parameter and random vouchers; accept/reject compared with the rule evaluated in i128; sequences of related calls on one thread (a pool of base times and their vouchers, mismatches after matches) judged call by call; plus a complete edge grid and now() with a provider answering clock - diff.",
             "Local milliseconds are the floor of the local time; voucher validity decided by the raffle crate with the crate's CHECK string.", "DESIGN.md §5 C14"),
     "C15": ("model-based property testing: exhaustive DFS over operation sequences + proptest random sequences, VecDeque as reference model",
-            "Every operation sequence over a 10-symbol alphabet up to depth 8 (9 in thorough) on three backings is enumerated and compared step by step with VecDeque, then tens of thousands (millions in thorough) of random sequences of up to 200 operations, and sequences starting from 1000..300000 elements with half of them consumed; the space bound is read through a hook, the crate's debug assertions are on. Exhaustive within the bound, sampled beyond it.",
+            "Every operation sequence over a 10-symbol alphabet up to depth 8 (9 in thorough) on three byte-item backings (and to depth 7 (8) on backings with zero-sized, 8-byte and padded-pair items) is enumerated and compared step by step with VecDeque, then tens of thousands (millions in thorough) of random sequences of up to 200 operations, and sequences starting from 1000..300000 elements with half of them consumed; the space bound is read through a hook, the crate's debug assertions are on. Exhaustive within the bound, sampled beyond it.",
             "VecDeque is the reference; bounded sequence length; hooks: sliding_deque/verif-hooks (verif_rep).", "DESIGN.md §5 C15"),
     "C16": ("model-based property testing: exhaustive DFS over operation sequences + proptest random sequences, BTreeMap as reference model",
             "Every operation sequence over a 12-symbol alphabet up to depth 7 (8 in thorough) for both item conventions is enumerated and compared with BTreeMap after every step (iteration, first/last, find of every key), then random sequences of up to 150 operations including pushes that must panic.",
